@@ -919,7 +919,11 @@ func (c *MapConverter) To(obj Object) (interface{}, error) {
 		if err != nil {
 			return nil, err
 		}
-		gMap.SetMapIndex(reflect.ValueOf(k), reflect.ValueOf(conv))
+		if conv == nil {
+			gMap.SetMapIndex(reflect.ValueOf(k), reflect.Zero(c.valueType))
+		} else {
+			gMap.SetMapIndex(reflect.ValueOf(k), reflect.ValueOf(conv))
+		}
 	}
 	return gMap.Interface(), nil
 }
@@ -1072,7 +1076,11 @@ func (c *SliceConverter) To(obj Object) (interface{}, error) {
 		if err != nil {
 			return nil, errz.TypeErrorf("type error: failed to convert slice element: %v", err)
 		}
-		slice = reflect.Append(slice, reflect.ValueOf(item))
+		if item == nil {
+			slice = reflect.Append(slice, reflect.Zero(c.valueType))
+		} else {
+			slice = reflect.Append(slice, reflect.ValueOf(item))
+		}
 	}
 	return slice.Interface(), nil
 }
@@ -1123,7 +1131,12 @@ func (c *ArrayConverter) To(obj Object) (interface{}, error) {
 		if err != nil {
 			return nil, errz.TypeErrorf("type error: failed to convert element: %v", err)
 		}
-		arrayElem.Index(i).Set(reflect.ValueOf(item))
+		if i >= c.len {
+			return nil, errz.TypeErrorf("type error: list of %d items does not fit an array of %d", len(list.items), c.len)
+		}
+		if item != nil {
+			arrayElem.Index(i).Set(reflect.ValueOf(item))
+		}
 	}
 	return arrayElem.Interface(), nil
 }
